@@ -381,6 +381,11 @@ package kv
 //@   loop 1 invariant -1 <= rangeindex && rangeindex < len(nodes) && puts == old(puts)
 //@   loop 2 invariant -1 <= rangeindex && rangeindex < len(roots) && puts == old(puts)
 //@   at call:kv.S3Interface.DeleteObjectWithContext assert node-not-in-current-version: !linkIn(*s.crdt.Mast, l)
+// The flush of the tree (mast MakeRoot, assumed to store every node a version needs) skips a node its node cache
+// remembers as already stored. Deleting node objects is therefore only sound when no such cache can still hold
+// them: nothing invalidates the cache here (known finding: with node_cache_entries > 0 a later version with the
+// same content is published without its node and reads as an empty table).
+//@   at call:kv.S3Interface.DeleteObjectWithContext assert no-cache-remembers-the-deleted-node: s.cfg.NodeCache == nil
 //@   at call:kv.S3Interface.DeleteObjectWithContext#3 assert only-empty-current: mastSize(*s.crdt.Mast) == 0 && !(ns(*root.Created) >= ns(before))
 
 // ---------------------------------------------------------------------------
